@@ -155,6 +155,52 @@ class OsShim:
         return real_os.replace(a, b)
 
 
+class FailingStream:
+    """a text stream that accepts `limit` characters and then raises on every further write"""
+
+    def __init__(self, f, limit, exc):
+        self.f, self.left, self.exc = f, limit, exc
+
+    def write(self, text):
+        if len(text) > self.left:
+            if self.left > 0:
+                self.f.write(text[:self.left])
+                self.f.flush()
+            self.left = 0
+            raise self.exc
+        self.left -= len(text)
+        return self.f.write(text)
+
+    def __getattr__(self, n):
+        return getattr(self.f, n)
+
+    def __enter__(self):
+        return self
+
+    def __exit__(self, *a):
+        return self.f.__exit__(*a)
+
+
+class FailingOpen:
+    """`open` as seen by mpf.file_interfaces.yaml_interface: the armed file name gets a FailingStream"""
+    armed = None
+
+    @classmethod
+    def arm(cls, filename, limit, exc):
+        cls.armed = (filename, limit, exc)
+
+    @classmethod
+    def disarm(cls):
+        cls.armed = None
+
+    @classmethod
+    def open(cls, file, mode="r", *a, **k):
+        f = open(file, mode, *a, **k)
+        if cls.armed and file == cls.armed[0] and "w" in mode:
+            return FailingStream(f, cls.armed[1], cls.armed[2])
+        return f
+
+
 class YamlShim:
     def __init__(self, real):
         self.real = real
@@ -168,15 +214,24 @@ class YamlShim:
             return self.real.save(filename, data)
         cmd = s.point("wr")
         if cmd in ("fail-partial", "crash-partial"):
-            tmp = filename + ".full"
-            self.real.save(tmp, data)
-            text = open(tmp, encoding="utf8").read()
-            real_os.remove(tmp)
-            with open(filename, "w", encoding="utf8") as f:
-                f.write(text[:max(1, len(text) // 2)])
-            if cmd == "crash-partial":
+            # the fault happens INSIDE the real YAML dump: the stream the interface opened accepts half of the text and
+            # then raises (disk full) - what the interface and its (shared) dumper do with that is part of the code under test
+            import io
+            import ruamel.yaml
+            buf = io.StringIO()
+            y = ruamel.yaml.YAML(typ="safe")
+            y.default_flow_style = False
+            y.dump(data, buf)
+            limit = max(1, len(buf.getvalue()) // 2)
+            if cmd == "crash-partial":       # the process dies: what the dumper would do next does not matter
+                with open(filename, "w", encoding="utf8") as f:
+                    f.write(buf.getvalue()[:limit])
                 raise Crash()
-            raise OSError(28, "injected: no space left on device")
+            FailingOpen.arm(filename, limit, OSError(28, "injected: no space left on device"))
+            try:
+                return self.real.save(filename, data)
+            finally:
+                FailingOpen.disarm()
         if cmd == "fail":
             raise OSError(5, "injected I/O error at write")
         return self.real.save(filename, data)
@@ -236,6 +291,8 @@ def install():
     dmmod.copy = CopyShim()
     fmmod.os = OsShim()
     fmmod.FileManager.file_interfaces[".yaml"] = YamlShim(fmmod.FileManager.file_interfaces[".yaml"])
+    import mpf.file_interfaces.yaml_interface as yimod
+    yimod.open = FailingOpen.open          # the interface's `with open(...)` goes through the fault injector
     _installed = True
 
 
